@@ -23,7 +23,11 @@ CONSTANTS RR,           \* set of rerunner ids
           Body,         \* [Keys -> Seq(item)] compute function behind each cache key
           AlwaysSpawn,  \* [RR -> BOOLEAN]     rerunner option alwaysSpawnGoroutine
           MaxBump, MaxFail, MaxTasks,
-          StopAllowed   \* SUBSET RR
+          StopAllowed,  \* SUBSET RR
+          MaxStops,     \* how many times Stop is called on a rerunner of StopAllowed (callers may overlap)
+          ParentCancelAllowed, \* SUBSET RR: the context the rerunner was created from may be cancelled by its owner
+          StopWaits     \* design switch. TRUE = the code: Stop always takes r.mu. FALSE: Stop returns at once when
+                        \* the context is already cancelled ("already stopped") - StopFinal must then fail
 
 None == "none"
 Slot == Res \cup FSlots
@@ -100,7 +104,7 @@ Init ==
   /\ tasks = BAddAll(EmptyBag, [i \in 1..Cardinality(RR) |-> <<FWait((CHOOSE f \in Perms(RR) : TRUE)[i])>>])
   /\ rmu = [r \in RR |-> FALSE] /\ comp = [r \in RR |-> None]
   /\ stop = [r \in RR |-> FALSE] /\ cancelled = [r \in RR |-> FALSE]
-  /\ stopStarted = [r \in RR |-> FALSE] /\ stopReturned = [r \in RR |-> FALSE] /\ failed = [r \in RR |-> FALSE]
+  /\ stopStarted = [r \in RR |-> 0] /\ stopReturned = [r \in RR |-> FALSE] /\ failed = [r \in RR |-> FALSE]
   /\ version = [s \in Slot |-> 0]
   /\ val = [n \in Node |-> {}]
   /\ used = {}
@@ -354,8 +358,20 @@ StopCancel(st) ==
   /\ Top(st).k = "stopc"
   /\ LET r == Top(st).r IN
      /\ cancelled' = [cancelled EXCEPT ![r] = TRUE]
-     /\ Upd(st, <<[Top(st) EXCEPT !.k = "stopl"]>> \o Tail(st), <<>>)
+     /\ IF ~StopWaits /\ cancelled[r]
+        THEN /\ Upd(st, Tail(st), <<>>)                      \* the tempting shortcut: "already stopped"
+             /\ stopReturned' = [stopReturned EXCEPT ![r] = TRUE]
+        ELSE /\ Upd(st, <<[Top(st) EXCEPT !.k = "stopl"]>> \o Tail(st), <<>>)
+             /\ UNCHANGED stopReturned
   /\ UNCHANGED gvars /\ UNCHANGED evars
+  /\ UNCHANGED <<cache, rmu, comp, stop, stopStarted, failed, running, runs, fails>>
+
+\* the owner of the context NewRerunner was given cancels it (a connection closing, a request gone): the
+\* rerunner will not start another run, a run in progress goes on, nothing is released until Stop
+ParentCancel(r) ==
+  /\ r \in ParentCancelAllowed /\ ~cancelled[r]
+  /\ cancelled' = [cancelled EXCEPT ![r] = TRUE]
+  /\ UNCHANGED tasks /\ UNCHANGED gvars /\ UNCHANGED evars
   /\ UNCHANGED <<cache, rmu, comp, stop, stopStarted, stopReturned, failed, running, runs, fails>>
 
 \* ... r.mu.Lock(); r.stop = true; release the computation; r.mu.Unlock()
@@ -383,8 +399,8 @@ Bump(s) ==
   /\ UNCHANGED gvars /\ UNCHANGED rvars /\ UNCHANGED <<val, used>>
 
 StartStop(r) ==
-  /\ r \in StopAllowed /\ ~stopStarted[r]
-  /\ stopStarted' = [stopStarted EXCEPT ![r] = TRUE]
+  /\ r \in StopAllowed /\ stopStarted[r] < MaxStops
+  /\ stopStarted' = [stopStarted EXCEPT ![r] = @ + 1]
   /\ tasks' = BAdd(tasks, <<FStop(r)>>)
   /\ UNCHANGED gvars /\ UNCHANGED evars
   /\ UNCHANGED <<cache, rmu, comp, stop, cancelled, stopReturned, failed, running, runs, fails>>
@@ -397,10 +413,10 @@ Step(st) == \/ InvMark(st) \/ InvHandler(st) \/ StrobeSnap(st) \/ RelMark(st) \/
             \/ StopCancel(st) \/ StopLock(st)
 
 Idle == DOMAIN tasks = {}
-EnvDone == bumps = MaxBump /\ \A r \in StopAllowed : stopStarted[r]
+EnvDone == bumps = MaxBump /\ \A r \in StopAllowed : stopStarted[r] = MaxStops
 Terminated == Idle /\ UNCHANGED vars
 
-Next == (\E st \in DOMAIN tasks : Step(st)) \/ (\E s \in Slot : Bump(s)) \/ (\E r \in RR : StartStop(r)) \/ Terminated
+Next == (\E st \in DOMAIN tasks : Step(st)) \/ (\E s \in Slot : Bump(s)) \/ (\E r \in RR : StartStop(r) \/ ParentCancel(r)) \/ Terminated
 Spec == Init /\ [][Next]_vars
 FairSpec == Spec /\ WF_vars(\E st \in DOMAIN tasks : Step(st))
 
@@ -422,7 +438,7 @@ StopFinalAct == [][\A r \in RR : stopReturned[r] => runs'[r] = runs[r]]_vars
 \* neither stopped nor failed was computed from the current version of everything it read,
 \* directly or through cached sub-computations
 FreshAtQuiescence ==
-  Idle => \A r \in RR : stop[r] \/ failed[r]
+  Idle => \A r \in RR : stop[r] \/ failed[r] \/ cancelled[r]      \* cancelled by its owner: it does not run again
                         \/ (comp[r] # None /\ \A p \in val[comp[r]] : p[2] = version[p[1]])
 
 \* C08: cleanup callbacks
